@@ -265,7 +265,7 @@ def run(ctx, res, pid):
     check_batch(pid, scs, res, names)
     res.extra["corpus_scenarios"] = len(corpus)
     # 2. random scenarios
-    n = ctx.scale(1500, 40000)
+    n = ctx.scale(12000, 400000)
     t0 = time.time()
     scs = generate_many(ctx, pid, n, thorough)
     res.extra["generation_s"] = round(time.time() - t0, 1)
